@@ -48,7 +48,8 @@ REFUTATION_PATTERNS = [
     "decreases not satisfied", "possible bit shift underflow/overflow", "recommendation not met",
     "loop invariant", "could not prove termination", "possible truncation", "unreachable",
     "failed this postcondition", "assertion not satisfied", "index out of bounds",
-    "may be out of bounds", "not satisfied",
+    "may be out of bounds", "not satisfied", "unable to prove post-condition of closure",
+    "unable to prove pre-condition of closure",
 ]
 RESOURCE_PATTERNS = ["rlimit", "resource limit", "timed out", "timeout", "out of memory"]
 
@@ -673,7 +674,9 @@ def generate(unit_path, repo=REPO, canary=None, auto_consts=()):
                 raise LostAnchor("source file %s missing" % ex.path)
             if p not in sources:
                 sources[p] = Source(p)
-            if canary and not ex.lift and canary[0] == ex.anchor.split("::")[-1].replace("fn ", "").strip():
+            _lname = re.search(r"\bfn\s+(\w+)", ex.lift[1]).group(1) if ex.lift and re.search(r"\bfn\s+(\w+)", ex.lift[1]) else None
+            if canary and ((not ex.lift and canary[0] == ex.anchor.split("::")[-1].replace("fn ", "").strip())
+                           or (ex.lift and canary[0] == _lname)):
                 ex.clauses["ensures"] = ex.clauses.get("ensures", "") + canary[1].rstrip(",") + ",\n"
             if ex.optional:
                 try:
